@@ -365,22 +365,21 @@ class RealEncoder(AbstractItemEncoder):
 
     @staticmethod
     def _dropFloatingPoint(m, encbase, e):
-        ms, es = 1, 1
+        ms = 1
         if m < 0:
             ms = -1  # mantissa sign
 
-        if e < 0:
-            es = -1  # exponent sign
-
         m *= ms
 
+        # m * 2**e == (m * 2**r) * encbase**q with 0 <= r: exact for
+        # any size of mantissa (a negative power of two is a float)
         if encbase == 8:
-            m *= 2 ** (abs(e) % 3 * es)
-            e = abs(e) // 3 * es
+            e, r = divmod(e, 3)
+            m *= 2 ** r
 
         elif encbase == 16:
-            m *= 2 ** (abs(e) % 4 * es)
-            e = abs(e) // 4 * es
+            e, r = divmod(e, 4)
+            m *= 2 ** r
 
         while True:
             if int(m) != m:
